@@ -196,6 +196,15 @@ static std::string step(const std::vector<std::string>& w) {
     if (exact || trivial) return "J " + vh::hex_f64(j[0]) + " " + vh::hex_f64(j[1]) + " " + vh::hex_f64(j[2]);
     return "Jest " + vh::hex_f64(j[1]);
   }
+  if (op == "jeq") {
+    const Obj& a = vh::at(objs, atoi(w[1].c_str()));
+    const Obj& b = vh::at(objs, atoi(w[2].c_str()));
+    uint64_t seed = strtoull(w[3].c_str(), nullptr, 10);
+    bool eq = false;
+    with_operand(a, [&](const auto& sa) { return with_operand(b, [&](const auto& sb) {
+      eq = theta_jaccard_similarity::exactly_equal(sa, sb, seed); return 0; }); });
+    return std::string("E ") + (eq ? "1" : "0");
+  }
   return "bad-op";
 }
 
